@@ -1,7 +1,7 @@
 #!/usr/bin/env python3
 """Apply each seeded change under /verif/seeded/<id>/patch.diff to /repo, run the quick check of the
 property it breaks (and, with --all, every property), undo it, and record which checks raise an alarm.
-usage: selftest_mutants.py [--all] [ids...]"""
+usage: selftest_mutants.py [--all] [--no-corpus] [ids...]"""
 import json, os, subprocess, sys, time
 VERIF = os.path.dirname(os.path.dirname(os.path.abspath(__file__)))
 SEEDED = os.path.join(VERIF, "seeded")
@@ -12,9 +12,14 @@ def sh(cmd, **kw):
 def main():
     args = [a for a in sys.argv[1:] if not a.startswith("--")]
     allprops = "--all" in sys.argv
-    ids = args or sorted(os.listdir(SEEDED))
+    ids = args or sorted(d for d in os.listdir(SEEDED) if os.path.isdir(os.path.join(SEEDED, d)))
     assert sh("git -C /repo status --porcelain").stdout.strip() == "", "/repo is not clean"
-    results = {}
+    nocorpus = "--no-corpus" in sys.argv   # generators and proofs alone, without the regression corpus
+    respath = os.path.join(VERIF, "seeded", "results_no_corpus.json" if nocorpus else "results.json")
+    try:
+        results = json.load(open(respath))
+    except Exception:
+        results = {}
     for mid in ids:
         d = os.path.join(SEEDED, mid)
         meta = json.load(open(os.path.join(d, "meta.json")))
@@ -28,15 +33,16 @@ def main():
             caught = {}
             for p in props:
                 t0 = time.time()
-                c = sh("cd %s && timeout 1500 python3 tools/check.py --property %s --tier quick" % (VERIF, p))
+                c = sh("cd %s && %stimeout 1500 python3 tools/check.py --property %s --tier quick" % (VERIF, "VERIF_NO_CORPUS=1 " if nocorpus else "", p))
                 viol = [l for l in c.stdout.splitlines() if l.startswith("VIOLATION")]
                 fail = [l for l in c.stdout.splitlines() if l.startswith("failing input") or l.startswith("no longer")]
                 caught[p] = {"alarm": bool(viol), "exit": c.returncode, "line": (viol or [""])[0], "detail": (fail or [""])[0][:400], "s": round(time.time() - t0)}
                 print(mid, p, "ALARM" if viol else "silent", caught[p]["detail"][:160])
             results[mid] = caught
+            json.dump(results, open(respath, "w"), indent=1)
         finally:
             sh("git -C /repo checkout -- . && git -C /repo clean -fdq")
-    json.dump(results, open(os.path.join(VERIF, "seeded", "results.json"), "w"), indent=1)
+    json.dump(results, open(respath, "w"), indent=1)
 
 if __name__ == "__main__":
     main()
